@@ -3488,3 +3488,145 @@ mod tests {
         assert_json_eq!(expected, actual);
     }
 }
+
+/// Verification hooks: thin wrappers that expose private items to the out-of-tree Kani harness
+/// crates under `/verif`. `cfg(kani)` is only ever set by `cargo kani`, never by `cargo build`/`test`.
+#[cfg(kani)]
+#[doc(hidden)]
+#[allow(missing_docs)]
+pub mod verif_hooks {
+    use super::*;
+
+    pub struct Buf(pub(crate) PrefixedStringBuf);
+
+    impl Buf {
+        pub fn new(prefix: &str, capacity: usize) -> Self {
+            Buf(PrefixedStringBuf::new(prefix, capacity))
+        }
+        pub fn as_str(&self) -> &str {
+            self.0.as_str()
+        }
+        pub fn is_empty(&self) -> bool {
+            self.0.is_empty()
+        }
+        pub fn clear(&mut self) {
+            self.0.clear()
+        }
+        pub fn push_raw_str(&mut self, s: &str) {
+            self.0.push_raw_str(s);
+        }
+        pub fn push_integer(&mut self, v: u64) {
+            self.0.push_integer(v);
+        }
+        pub fn json_string(&mut self, s: &str) {
+            self.0.json_string(s);
+        }
+    }
+
+    pub fn string_json_string(dst: &mut String, value: &str) {
+        dst.json_string(value);
+    }
+
+    pub fn clamp_to_finite(float: f64) -> Option<f64> {
+        super::clamp_to_finite(float, "m").map(|f| f.0)
+    }
+
+    /// `None` if the precondition (finite) does not hold
+    pub fn write_float(buf: &mut Buf, v: f64) {
+        ValueWriter::write_float(&mut buf.0, FiniteFloat(v))
+    }
+
+    pub fn write_observation(
+        buf: &mut Buf,
+        counts: &mut Buf,
+        observation: Observation,
+        multiplicity: Option<u64>,
+    ) -> bool {
+        ValueWriter::write_observation(&mut buf.0, &mut counts.0, observation, multiplicity, "m").is_ok()
+    }
+
+    pub fn write_metric_value(
+        name: &str,
+        fields_buf: &mut Buf,
+        counts_buf: &mut Buf,
+        first: Observation,
+        distribution: impl Iterator<Item = Observation>,
+        multiplicity: Option<u64>,
+    ) -> bool {
+        ValueWriter::write_metric_value(
+            name,
+            &mut fields_buf.0,
+            &mut counts_buf.0,
+            first,
+            distribution,
+            multiplicity,
+        )
+        .is_ok()
+    }
+
+    #[allow(clippy::too_many_arguments)]
+    pub fn write_metric(
+        name: &str,
+        fields_buf: &mut Buf,
+        metrics_buf: &mut Buf,
+        counts_buf: &mut Buf,
+        distribution: impl IntoIterator<Item = Observation>,
+        unit: Unit,
+        flags: MetricFlags<'_>,
+        multiplicity: Option<u64>,
+    ) -> bool {
+        ValueWriter::write_metric(
+            name,
+            &mut fields_buf.0,
+            &mut metrics_buf.0,
+            &mut counts_buf.0,
+            distribution,
+            unit,
+            flags,
+            multiplicity,
+        )
+        .is_ok()
+    }
+
+    pub fn rate_to_n_alpha(rate: f32) -> (u64, f64) {
+        super::rate_to_n_alpha(rate)
+    }
+
+    pub fn rate_to_n<R: RngCore>(rate: f32, rng: &mut R) -> u64 {
+        super::rate_to_n(rate, rng)
+    }
+
+    /// (validate_unique, validate_dimensions_exist, validate_names) - true means the validation is ON
+    pub fn validation_switches(emf: &Emf) -> (bool, bool, bool) {
+        (
+            !emf.validation.skip_validate_unique,
+            !emf.validation.skip_validate_dimensions_exist,
+            !emf.validation.skip_validate_names,
+        )
+    }
+
+    pub fn builder_validation_switches(b: &EmfBuilder) -> (bool, bool, bool) {
+        (
+            !b.validation.skip_validate_unique,
+            !b.validation.skip_validate_dimensions_exist,
+            !b.validation.skip_validate_names,
+        )
+    }
+
+    pub fn high_storage_resolution_flags() -> MetricFlags<'static> {
+        HighStorageResolutionCtor::construct()
+    }
+
+    pub fn no_metric_flags() -> MetricFlags<'static> {
+        NoMetricCtor::construct()
+    }
+
+    pub fn format_with_multiplicity(
+        emf: &mut Emf,
+        entry: &impl Entry,
+        output: &mut impl io::Write,
+        multiplicity: Option<u64>,
+    ) -> Result<(), IoStreamError> {
+        emf.format_with_multiplicity(entry, output, multiplicity)
+    }
+}
